@@ -190,7 +190,10 @@ class TNCore(SessionBase):
         """
         res_ref = res_obj.ref
         snap = self.snapshot_pool()
-        arrs = arrays_of(res_ref)
+        arrs = []
+        for a in arrays_of(res_ref):
+            if not any(a is b for b in arrs):      # the same array may sit on several sites (user level sharing)
+                arrs.append(a)
         saved = []
         extra_before = [a.tobytes() for a in extra_arrays]
         for a in arrs:
@@ -211,7 +214,7 @@ class TNCore(SessionBase):
         self.compare_pool(snap, {res_obj.uid}, 'result_aliases_operand')
         for a, b in zip(extra_arrays, extra_before):
             self.check(a.tobytes() == b, 'C19', 'result_aliases_argument', 'writing into the returned object changed an argument array')
-        for a, b in saved:
+        for a, b in reversed(saved):
             a[...] = b
 
     # ---- layout / write protection -----------------------------------------------------------
